@@ -72,7 +72,7 @@ Inductive rsym :=
 | RChainSet (ty : ntype) (chain : list link) (last : option link).
    (* compositeEntitySetSymbol: iterable chain; [last] = Some l when cursorLastF is l.Eval, None when it is GetTypeAndValue *)
 
-Fixpoint link_type (l : link) : ntype :=
+Definition link_type (l : link) : ntype :=
   match l with
   | LkId => TString
   | LkField _ ty _ _ => ty
